@@ -127,6 +127,33 @@ SITES = {
     'prince_list': ('lib_princeling/wordlist_generation.py', 'create_prince_wordlist'),
     'random_walk': ('lib_guesser/pcfg_grammar.py', 'PcfgGrammar.random_walk'),
     'honey_guess': ('lib_guesser/pcfg_grammar.py', 'PcfgGrammar._honeyword_recursive_guess'),
+    # trainer detectors
+    'kw_detect': ('lib_trainer/detection_rules/keyboard_walk.py', 'detect_keyboard_walk'),
+    'kw_find': ('lib_trainer/detection_rules/keyboard_walk.py', 'find_keyboard_row_column'),
+    'kw_next': ('lib_trainer/detection_rules/keyboard_walk.py', 'is_next_on_keyboard'),
+    'kw_interesting': ('lib_trainer/detection_rules/keyboard_walk.py', 'interesting_keyboard'),
+    'email_detect': ('lib_trainer/detection_rules/email_detection.py', 'detect_email'),
+    'email_list': ('lib_trainer/detection_rules/email_detection.py', 'email_detection'),
+    'web_detect': ('lib_trainer/detection_rules/website_detection.py', 'detect_website'),
+    'web_list': ('lib_trainer/detection_rules/website_detection.py', 'website_detection'),
+    'year_detect': ('lib_trainer/detection_rules/year_detection.py', 'detect_year'),
+    'year_list': ('lib_trainer/detection_rules/year_detection.py', 'year_detection'),
+    'ctx_detect': ('lib_trainer/detection_rules/context_sensitive_detection.py', 'detect_context_sensitive'),
+    'ctx_list': ('lib_trainer/detection_rules/context_sensitive_detection.py', 'context_sensitive_detection'),
+    'alpha_detect': ('lib_trainer/detection_rules/alpha_detection.py', 'detect_alpha'),
+    'alpha_list': ('lib_trainer/detection_rules/alpha_detection.py', 'alpha_detection'),
+    'digit_detect': ('lib_trainer/detection_rules/digit_detection.py', 'detect_digits'),
+    'digit_list': ('lib_trainer/detection_rules/digit_detection.py', 'digit_detection'),
+    'other_list': ('lib_trainer/detection_rules/other_detection.py', 'other_detection'),
+    'mw_train': ('lib_trainer/detection_rules/multiword_detector.py', 'MultiWordDetector.train'),
+    'mw_count': ('lib_trainer/detection_rules/multiword_detector.py', 'MultiWordDetector._get_count'),
+    'mw_identify': ('lib_trainer/detection_rules/multiword_detector.py', 'MultiWordDetector._identify_multi'),
+    'mw_parse': ('lib_trainer/detection_rules/multiword_detector.py', 'MultiWordDetector.parse'),
+    'base_structure': ('lib_trainer/base_structure.py', 'base_structure_creation'),
+    'parser_parse': ('lib_trainer/pcfg_password_parser.py', 'PCFGPasswordParser.parse'),
+    'parser_update': ('lib_trainer/pcfg_password_parser.py', 'PCFGPasswordParser._update_counter_len_indexed'),
+    'scorer_pcfg_parse': ('lib_scorer/pcfg_password_scorer.py', 'PCFGPasswordScorer.parse'),
+    'scorer_mw': ('lib_scorer/pcfg_password_scorer.py', 'PCFGPasswordScorer.create_multiword_detector'),
     # trainer OMEN
     'find_omen_level': ('lib_trainer/omen/evaluate_password.py', 'find_omen_level'),
     'rec_keyspace': ('lib_trainer/omen/evaluate_password.py', '_rec_calc_keyspace'),
